@@ -10,23 +10,23 @@ package operations
 //@ func (*Operations).Delete
 //@   property C10
 //@   safety C10
-//@   requires opsReady(o) && opsIdle(o)
-//@   modifies *, driveHeld, mutexHeld[addr(o.diskOperationLock)]
+//@   requires o != nil && opsReady(o) && opsIdle(o)
+//@   modifies *, driveHeld, mutexHeld[addr(o.diskOperationLock)], tapeWrites, indexWrites
 //@   ensures [drive-free] !driveHeld
 //@   ensures [ops-free] !mutexHeld[addr(o.diskOperationLock)]
 
 //@ func (*Operations).Move
 //@   property C10
 //@   safety C10
-//@   requires opsReady(o) && opsIdle(o)
-//@   modifies *, driveHeld, mutexHeld[addr(o.diskOperationLock)]
+//@   requires o != nil && opsReady(o) && opsIdle(o)
+//@   modifies *, driveHeld, mutexHeld[addr(o.diskOperationLock)], tapeWrites, indexWrites
 //@   ensures [drive-free] !driveHeld
 //@   ensures [ops-free] !mutexHeld[addr(o.diskOperationLock)]
 
 //@ func (*Operations).Restore
 //@   property C10
 //@   safety C10
-//@   requires opsReady(o) && opsIdle(o)
+//@   requires o != nil && opsReady(o) && opsIdle(o)
 //@   modifies *, driveHeld, mutexHeld[addr(o.diskOperationLock)]
 //@   ensures [drive-free] !driveHeld
 //@   ensures [ops-free] !mutexHeld[addr(o.diskOperationLock)]
@@ -34,30 +34,30 @@ package operations
 //@ func (*Operations).Archive
 //@   property C10
 //@   safety C10
-//@   requires opsReady(o) && opsIdle(o) && getSrc != nil
-//@   modifies *, driveHeld, mutexHeld[addr(o.diskOperationLock)]
+//@   requires o != nil && opsReady(o) && opsIdle(o) && getSrc != nil
+//@   modifies *, driveHeld, mutexHeld[addr(o.diskOperationLock)], tapeWrites, indexWrites
 //@   ensures [drive-free] !driveHeld
 //@   ensures [ops-free] !mutexHeld[addr(o.diskOperationLock)]
 
 //@ func (*Operations).archive
 //@   property C10
 //@   safety C10
-//@   requires opsReady(o) && !driveHeld && getSrc != nil
-//@   modifies *, driveHeld
+//@   requires o != nil && opsReady(o) && !driveHeld && getSrc != nil
+//@   modifies *, driveHeld, tapeWrites, indexWrites
 //@   ensures [drive-free] !driveHeld
 
 //@ func (*Operations).Update
 //@   property C10
 //@   safety C10
-//@   requires opsReady(o) && opsIdle(o) && getSrc != nil
-//@   modifies *, driveHeld, mutexHeld[addr(o.diskOperationLock)]
+//@   requires o != nil && opsReady(o) && opsIdle(o) && getSrc != nil
+//@   modifies *, driveHeld, mutexHeld[addr(o.diskOperationLock)], tapeWrites, indexWrites
 //@   ensures [drive-free] !driveHeld
 //@   ensures [ops-free] !mutexHeld[addr(o.diskOperationLock)]
 
 //@ func (*Operations).Initialize
 //@   property C10
 //@   safety C10
-//@   requires opsReady(o) && opsIdle(o)
-//@   modifies *, driveHeld, mutexHeld[addr(o.diskOperationLock)]
+//@   requires o != nil && opsReady(o) && opsIdle(o)
+//@   modifies *, driveHeld, mutexHeld[addr(o.diskOperationLock)], tapeWrites, indexWrites
 //@   ensures [drive-free] !driveHeld
 //@   ensures [ops-free] !mutexHeld[addr(o.diskOperationLock)]
